@@ -46,10 +46,12 @@ class Kafka(Scenario):
         self.broker = fk.Broker("t", p["nparts"])
         self.broker.clock = self.loop.time
         fk.install(self.broker)
+        self._install_clock()
         for part, off in p.get("committed", ()):
             self.broker.committed[(GROUP, part)] = off
         for part in p.get("pre", ()):
             self.broker.produce(part, _val(part, len(self.broker.parts[part])))
+        self.present_at_start = dict((i, len(x)) for i, x in enumerate(self.broker.parts))
         self.src = self._source()
         kind = p["consumer"]
         if kind == "sync":
@@ -76,6 +78,33 @@ class Kafka(Scenario):
 
     def finish(self):
         fk.uninstall()
+        import streamz.sources as ss
+        ss.time = self._real_time_mod
+
+    def _install_clock(self):
+        """get_message_batch spin-waits with time.sleep() for an offset that is not there yet; on the
+        virtual loop that would block the explorer for real, so a sleep is reported instead"""
+        import streamz.sources as ss
+        scen = self
+        self._real_time_mod = ss.time
+
+        class BlockingFetch(Exception):
+            pass
+
+        class T:
+            @staticmethod
+            def time():
+                return scen.loop.time()
+
+            @staticmethod
+            def sleep(d):
+                scen.violations.append(Violation("past-watermark", scen.site(), "fetch-waits-for-offset-beyond-the-log",
+                                                 dict(batches=[e[3] for e in scen.log if e[0] == "in"], produced=[len(x) for x in scen.broker.parts])))
+                raise BlockingFetch("get_message_batch waits for a message that does not exist")
+        ss.time = T
+
+    def expected_background(self, err):
+        return "BlockingFetch" in (err[1] + err[2]) or super().expected_background(err)
 
     # ---- events ------------------------------------------------------------------------
     def extra_events(self):
@@ -185,6 +214,10 @@ class Kafka(Scenario):
                 start = self._start_position(part, e[2])
                 if start is not None and lo != start:
                     return Violation("range-start", site, "", dict(info, partition=part, expected_start=start, got=lo))
+                if start is None and lo < self.present_at_start.get(part, 0):
+                    # reset=latest, no committed offset: nothing that was already there may be delivered
+                    return Violation("range-start", site, "latest-delivers-old-messages",
+                                     dict(info, partition=part, present_at_start=self.present_at_start.get(part, 0), got=lo))
             pos[part] = hi + 1
         # commits of life 1: only for completely processed batches, offset = last + 1
         ends = {}
@@ -224,6 +257,8 @@ class Kafka(Scenario):
             if e[0] != "in2":
                 continue
             offs = [_parse(v) for v in e[3]]
+            if not offs:
+                return Violation("empty-batch", site, "second-life", info2)
             part, lo, hi = offs[0][0], offs[0][1], offs[-1][1]
             if part in pos2 and lo != pos2[part]:
                 return Violation("range-gap" if lo > pos2[part] else "range-overlap", site, "second-life", info2)
@@ -281,6 +316,8 @@ def plan(ctx):
         jobs.append(((consumer, 2, 1, None, False, "latest", (), (0,), (0, 0), 2.0), 0))
         jobs.append(((consumer, 2, 1, None, True, "earliest", (), (0,), (0, "A", 1), 2.0), 0))
         jobs.append(((consumer, 1, 2, 2, True, "latest", ((1, 0),), (1,), (0, 1), 2.0), 0))
+        # reset=latest: a partition added later is still read from its beginning, old messages are not delivered
+        jobs.append(((consumer, 2, 1, None, True, "latest", (), (0,), ("A", 1, 1), 2.0), 0))
     if T:
         # four messages / a longer horizon, deviation bound 0 (a crash is deviation-free everywhere)
         for consumer in ("sync", "buffer", "direct"):
